@@ -458,3 +458,27 @@ func (s SymSpec) Decrypt(key, nonce, ct, tag, aad []byte) ([]byte, error) {
 	}
 	panic("family")
 }
+
+// SealPadded is Seal without the padding step: it encrypts padded (a multiple of 16
+// bytes, possibly NOT a valid PKCS#7 padding) and authenticates the result. It lets a
+// test build a message whose tag is right and whose padding is wrong.
+func (p CBCHMAC) SealPadded(key, iv, padded, aad []byte) (e, t []byte, err error) {
+	if len(key) != p.KeyLen() || len(iv) != 16 {
+		return nil, nil, ErrReject
+	}
+	e, err = CBCEncrypt(key[p.MacKey:], iv, padded)
+	if err != nil {
+		return nil, nil, err
+	}
+	return e, p.tag(key[:p.MacKey], aad, iv, e), nil
+}
+
+// CBCHMACByName returns the parameter set called name.
+func CBCHMACByName(name string) CBCHMAC {
+	for _, p := range CBCHMACVariant {
+		if p.Name == name {
+			return p
+		}
+	}
+	panic("refcrypto: no AES_CBC_HMAC_SHA2 parameter set " + name)
+}
